@@ -781,6 +781,16 @@ def c18_streams(ctx):
             else:
                 files.append((nm, [rand_dict(rng, 1) for _ in range(rng.randrange(0, 3))]))
         yield registry_case(files, "get-lists")
+    # lookups follow the effective data: entries without a bank code are not found under the empty code, countries
+    # without a bank-code field find no bank
+    empties = sorted({b[0] for b in ctx.facts["banks"] if not b[1]})
+    for cc in empties + ["AO", "HN", "DE", "XX", ""]:
+        yield Case("prop", "spec_lookup_empty_code", [enc(cc)], "lookup-empty-code", True)
+        yield Case("corr", "candidates", [enc(cc), enc("")], "lookup-empty-code", True)
+        yield Case("corr", "from_bank_code", [enc(cc), enc("")], "lookup-empty-code", True)
+    for cc in countries(ctx):
+        if not (ctx.facts["iban_rows"][cc].get("positions") or {}):
+            yield Case("corr", "iban_bank_lookup", [enc(cc), enc(random_bban(ctx, cc))], "lookup-no-bank-field", True)
     # the real registries of the tree: effective data = model of get on the raw files
     repo = os.environ.get("VERIF_REPO", "/repo")
     for reg in ("iban", "bank"):
@@ -1096,6 +1106,29 @@ def c08_inputs(ctx):
 
 
 def c08_streams(ctx):
+    # components that are too long by exactly what the library computes itself: the account code followed by the national
+    # check digits (read off the MODEL's result for the plain components), the bank code followed by the branch code and more
+    rng = ctx.rng
+    trips = []
+    for cc in sorted(COMPUTING):
+        row = ctx.facts["iban_rows"].get(cc)
+        pos = (row or {}).get("positions") or {}
+        if "national_checksum_digits" not in pos:
+            continue
+        w = {k: pos.get(k, [0, 0])[1] - pos.get(k, [0, 0])[0] for k in ("bank_code", "branch_code", "account_code")}
+        for _ in range(3 if ctx.quick else 20):
+            trips.append((cc, [component_values(ctx, cc, k, w[k])[0] if w[k] else "" for k in ("bank_code", "account_code", "branch_code")]))
+    res = ctx.spec_eval(["\t".join(["generate", enc(cc), enc(v[0]), enc(v[1]), enc(v[2])]) for cc, v in trips]) if trips else []
+    for (cc, v), r in zip(trips, res):
+        if not r.startswith("OK "):
+            continue
+        iban = dec(r[3:])
+        s0, e0 = ctx.facts["iban_rows"][cc]["positions"]["national_checksum_digits"]
+        digits = iban[4:][s0:e0]
+        for ac in (v[1] + digits, digits + v[1], v[1] + digits[:1]):
+            args = [enc(cc), enc(v[0]), enc(ac), enc(v[2])]
+            yield Case("prop", "spec_generate", args, "account-with-check-digits", True)
+            yield Case("corr", "generate", args, "account-with-check-digits", True)
     for cc, bk, ac, br in c08_inputs(ctx):
         args = [enc(cc), enc(bk), enc(ac), enc(br)]
         yield Case("prop", "spec_generate", args, "generate-" + (cc if cc in TWEAK or cc == "DE" else "other"), True)
